@@ -790,6 +790,17 @@ var limitProgs = []limitProg{
 		      res[2] = { probe() }   -- called from the same register as the first one
 		      if res[1][1] ~= res[2][1] then return false, "the limit moved: first " .. tostring(res[1][1]) .. ", after 300 caught overflows " .. tostring(res[2][1]) end
 		      return res[1][1], res[1][2]`},
+	// the registry fills exactly while a Go function called without arguments is the current frame of a
+	// coroutine.create/resume coroutine (its LocalBase is the limit; pushing its result overflows): hunt2 obs-1
+	{name: "deep-regs-gofn-resume", kind: "reg", co: true, want: func(n int) int { return n },
+		src: `local function rec(n) local a, b, c, d, e, f, g, h = 1, 2, 3, 4, 5, 6, 7, 8 mark() if n == 0 then return 0 end return 1 + rec(n - 1) + (a - a) end
+		      local co = coroutine.create(function() return rec(N) end)
+		      local ok, v = coroutine.resume(co)
+		      if coroutine.running() ~= nil then return false, "main thread is not running" end
+		      if coroutine.status(co) ~= "dead" then return false, "status " .. coroutine.status(co) end
+		      local ok2, v2 = coroutine.resume(co)
+		      if ok2 ~= false or not tostring(v2):find("dead") then return false, "second resume: " .. tostring(v2) end
+		      return ok, v`},
 	{name: "pushn", kind: "reg", want: func(n int) int { return n },
 		src: `return pcall(function() mark() return pushn(N) end)`},
 	{name: "rec-api", kind: "call", api: true, want: func(n int) int { return n },
